@@ -10,7 +10,7 @@
  *     (secp256k1_ecmult_multi_var and secp256k1_scratch_alloc are replaced by MODELS WITH A BODY in
  *     harness/C19/verify.c; the reasons are given there.)
  *  Contracts PROVED by a unit of these properties and re-used as call-site abstraction:
- *     secp256k1_generator_parse        (C07.generator_parse, non-NULL arguments)
+ *     secp256k1_generator_parse        (C19.generator_parse_frame: frame and 0/1 enforced on the real body; C07.generator_parse: API behaviour)
  *     secp256k1_generator_serialize    (C19.generator_serialize: frame, returns 1; C08 owns the codec)
  *     secp256k1_generator_save / _load (C19.generator_save / C19.generator_load: frames)
  *  libc: memset with a symbolic length replaced by a contract (BP_MEMSET), like memcpy in DESIGN 2.4.
@@ -56,7 +56,7 @@ static int secp256k1_ge_set_xo_var(secp256k1_ge *r, const secp256k1_fe *x, int o
 __CPROVER_requires(__CPROVER_w_ok(r, sizeof(*r)) && __CPROVER_r_ok(x, sizeof(*x)) && fe_mag(x, 8))
 __CPROVER_assigns(*r)
 __CPROVER_ensures(__CPROVER_return_value == 0 || __CPROVER_return_value == 1)
-__CPROVER_ensures(r->infinity == 0 && FE_EQ_OLD(r->x, *x) && fe_mag(&r->y, 1))
+__CPROVER_ensures(r->infinity == 0 && FE_EQ_OLD(r->x, *x) && fe_mag(&r->y, 2))   /* y is negated (magnitude 2) when its parity differs from `odd` */
 ;
 #endif
 #ifdef BP_IS_SQUARE
@@ -87,7 +87,7 @@ __CPROVER_ensures(__CPROVER_return_value == 0 || __CPROVER_return_value == 1)
 static void secp256k1_ellswift_swiftec_var(secp256k1_ge *p, const secp256k1_fe *u, const secp256k1_fe *t)
 __CPROVER_requires(__CPROVER_w_ok(p, sizeof(*p)) && __CPROVER_r_ok(u, sizeof(*u)) && __CPROVER_r_ok(t, sizeof(*t)) && fe_mag(u, 1) && fe_canon(t))
 __CPROVER_assigns(*p)
-__CPROVER_ensures(ge_ok1(p) && p->infinity == 0)
+__CPROVER_ensures(ge_ok(p) && p->infinity == 0)    /* ends in ge_set_xo_var: y magnitude up to 2 */
 ;
 static void secp256k1_ellswift_xswiftec_frac_var(secp256k1_fe *xn, secp256k1_fe *xd, const secp256k1_fe *u, const secp256k1_fe *t)
 __CPROVER_requires(__CPROVER_w_ok(xn, sizeof(*xn)) && __CPROVER_w_ok(xd, sizeof(*xd)) && __CPROVER_r_ok(u, sizeof(*u)) && __CPROVER_r_ok(t, sizeof(*t)) && fe_mag(u, 1) && fe_mag(t, 1))
@@ -110,7 +110,7 @@ static int secp256k1_eckey_pubkey_parse(secp256k1_ge *elem, const unsigned char 
 __CPROVER_requires(__CPROVER_w_ok(elem, sizeof(*elem)) && (size == 0 || __CPROVER_r_ok(pub, size)))
 __CPROVER_assigns(*elem, g_pp_n, g_pp_size0, g_pp_b0, g_pp_v0)
 __CPROVER_ensures(__CPROVER_return_value == 0 || __CPROVER_return_value == 1)
-__CPROVER_ensures(__CPROVER_return_value == 1 ==> (ge_ok1(elem) && elem->infinity == 0))
+__CPROVER_ensures(__CPROVER_return_value == 1 ==> (ge_ok(elem) && elem->infinity == 0))   /* y may have magnitude 2 (ge_set_xo_var) */
 __CPROVER_ensures(g_pp_n == __CPROVER_old(g_pp_n) + 1)
 __CPROVER_ensures(__CPROVER_old(g_pp_n) == 0 ==> (g_pp_size0 == size && g_pp_v0 == __CPROVER_return_value && (g_pp_k < size ==> g_pp_b0 == pub[g_pp_k])))
 __CPROVER_ensures(__CPROVER_old(g_pp_n) != 0 ==> (g_pp_size0 == __CPROVER_old(g_pp_size0) && g_pp_v0 == __CPROVER_old(g_pp_v0) && g_pp_b0 == __CPROVER_old(g_pp_b0)))
@@ -119,12 +119,12 @@ __CPROVER_ensures(__CPROVER_old(g_pp_n) != 0 ==> (g_pp_size0 == __CPROVER_old(g_
 
 /* ---- Jacobian equality (field multiplications inside): oracle ---- */
 #ifdef BP_GEJ_EQ
-int g_geq_n, g_geq_v;    /* number of calls, last verdict */
+int g_geq_n, g_geq_allok;    /* number of calls; all verdicts so far positive */
 static int secp256k1_gej_eq_var(const secp256k1_gej *a, const secp256k1_gej *b)
 __CPROVER_requires(__CPROVER_r_ok(a, sizeof(*a)) && __CPROVER_r_ok(b, sizeof(*b)) && gej_ok(a) && gej_ok(b))
-__CPROVER_assigns(g_geq_n, g_geq_v)
+__CPROVER_assigns(g_geq_n, g_geq_allok)
 __CPROVER_ensures(__CPROVER_return_value == 0 || __CPROVER_return_value == 1)
-__CPROVER_ensures(g_geq_n == __CPROVER_old(g_geq_n) + 1 && g_geq_v == __CPROVER_return_value)
+__CPROVER_ensures(g_geq_n == __CPROVER_old(g_geq_n) + 1 && g_geq_allok == (__CPROVER_old(g_geq_allok) && __CPROVER_return_value == 1))
 ;
 #endif
 
